@@ -288,3 +288,11 @@ REPLAYERS = {'clone_emode': replay_clone_emode}
 _t13 = tasks
 def tasks(tier):
     return _t13(tier) + [('write_path:' + n, mk_write_path(n)) for n in WRITE_PATHS]
+
+
+
+# ---------------------------------------------------------------- shared with C08.b: the Anchor constraint sets of this property's instructions (signer role, has_one = group, vault / PDA bindings)
+_t_shared_structs = tasks
+def tasks(tier):
+    from specs.C08 import shared_struct_tasks
+    return _t_shared_structs(tier) + shared_struct_tasks('C13.g.', ['LendingPoolConfigureBank', 'LendingPoolConfigureBankEmode', 'LendingPoolCloneEmode', 'MarginfiGroupConfigure', 'PropagateStakedSettings', 'EditStakedSettings'])
